@@ -31,6 +31,9 @@ CLAIMS["C04"] = dict(cat="other", tech="MIR panic-site discharge with interproce
 CLAIMS["C02"] = dict(cat="other", tech="loop inventory over the call graph (SCCs with recognised progress arguments), constant-budget / structural progress obligation for the resend loop, must-pass-through rules on CFGs for timer arming",
    text="Every call into Connection/Net returns: each CFG cycle reachable from the public API is iterator- or reader-driven or reviewed, and the one non-advancing cycle of resend is accepted only under a checked progress argument (budget inequality over extracted constants, or empty-packet admission + flush clears). Timer mechanisms: ResendChunk::new and resend arm the retransmit timer; tick_action re-arms before every send; flush/connect/send_connless arm the send timer; needs_tick is min(send, oldest resend) and inactive outright only when idle; Net::needs_tick is the min over peers; resend requests are set and honoured on the right edges.",
    note=TB + "Liveness under a fair suffix (the connecting side becomes ready, every chunk is eventually delivered) is a history-level property and is not decided. The `optional` crate's ordering of the none value is assumed.")
+CLAIMS["C10"] = dict(cat="other", tech="expression agreement between writer and reader sites (def-use normal forms), dominance clauses, bit-provenance for the key packing",
+   text="Registry and layout agreement between the building and the reading side: the number stored for a UUID equals the id of its type-0 registry item on the writer, the reader inserts key_to_id(item_key) on the TYPE_ID_EX branch, recycle re-adds (0, number, uuid) from the same map entry; write_impl/read_from_ints agree on word order, byte units and unsigned key order; type_id's unwrap is covered by the MissingUuidType clause; key/key_to_raw_type_id/key_to_id are mutually inverse on all bit patterns.",
+   note=TB + "Indistinguishability of every snapshot after a wire round trip is value-level and not decided; these are the structural conditions it rests on (D6 was a violation of the reader-side agreement).")
 NA = {}
 m = {"version": 1,
      "setup_cmd": "cd /verif/engine/mirfacts && CARGO_NET_OFFLINE=true cargo build --release --offline",
